@@ -54,6 +54,9 @@ var c17Files = map[string]string{
 	"bad.lua":        "local q = = 1\n",
 	"sub/dir/m2.lua": c17Main,
 	"sub/axlua.lua":  "local zz = 1\nprint(undefinedVar2)\n",
+	// names with regular-expression metacharacters: a rule that names them literally silences them
+	"lib(v1)/p.lua": "local zy = 1\nprint(undefinedVar3)\n",
+	"x+y.lua":       "local zx = 1\nprint(undefinedVar4)\n",
 }
 
 type c17Diag struct {
@@ -368,6 +371,12 @@ func runC17(res *lib.Result, tier string, seed int64, args []string) error {
 		if i < len(suspects) {
 			fl, pats, channel = suspects[i], nil, i%3
 			res.Dist("e2e.suspect")
+		} else if i%8 == 5 {
+			// fixed: everything on, one literal rule with metacharacters (no random draw is replaced: pats / flags of this
+			// index were drawn above and are simply not used)
+			fl = allOn
+			pats = []string{[]string{"lib(v1)/", "x+y.lua", "lib(v1)/p.lua"}[(i/8)%3]}
+			res.Dist("e2e.literal-rule-with-metacharacters")
 		}
 		var sess *lib.Session
 		var rules []c17Rule
